@@ -66,6 +66,11 @@ def gen_collect(rng: random.Random, i: int) -> dict[str, Any]:
     if m < 0.015:
         # Liquid equality: a boolean equals only a boolean, so 1 and true are two values
         return {"mode": "scalars", "x": g_list(rng, [1, True, 0, False, "a"], 0, 6), "pseed": ps}
+    if m < 0.05:
+        # equal means the same code points: no case folding, no normalisation
+        from .c19_lib import TRICKY_WORDS
+
+        return {"mode": "scalars", "x": g_list(rng, rng.sample(TRICKY_WORDS, 5), 0, 8), "pseed": ps}
     if m < 0.2:
         pool = [v for v in UNIQ_SAFE if not isinstance(v, list)]
         return {"mode": "scalars", "x": nest(rng, g_list(rng, pool, 0, 8), 0.2), "pseed": ps}
